@@ -1,6 +1,7 @@
 """Copy confirmed seeded changes into /verif/seeded/<id>/ with meta.json (confirmation + which checks catch them).
 
-usage: seedstore.py <confirm files...>   (reads /tmp/seeded/<Cnn>/<X>/{patch.diff,demo.py,notes.md})
+usage: seedstore.py <confirm files...>   (reads /tmp/seeded<R>/<Cnn>/<X>/{patch.diff,demo.py,notes.md};
+round R > 1 is stored as <Cnn>-<X><R>)
 """
 import json
 import os
@@ -13,12 +14,13 @@ HERE = os.path.dirname(os.path.dirname(os.path.abspath(__file__)))
 conf = {}
 for f in sys.argv[1:]:
     for line in open(f):
-        m = re.match(r'(/tmp/seeded/(C\d+)/([AB])) DEMO_CLEAN=(\d+) DEMO_MUT=(\d+) SUITE=(.*)', line.strip())
+        m = re.match(r'(/tmp/seeded(\d*)/(C\d+)/([AB])) DEMO_CLEAN=(\d+) DEMO_MUT=(\d+) SUITE=(.*)', line.strip())
         if m:
-            conf[(m.group(2), m.group(3))] = {'dir': m.group(1), 'demo_clean_rc': int(m.group(4)), 'demo_mut_rc': int(m.group(5)),
-                                             'suite': m.group(6)}
+            conf[(m.group(3), m.group(4) + m.group(2))] = {'dir': m.group(1), 'demo_clean_rc': int(m.group(5)),
+                                                           'demo_mut_rc': int(m.group(6)), 'suite': m.group(7)}
 for (prop, x), c in sorted(conf.items()):
-    ok = c['demo_clean_rc'] == 0 and c['demo_mut_rc'] != 0 and '11273 passed' in c['suite'] or ('passed' in c['suite'] and '2 failed' in c['suite'] and '18 errors' in c['suite'])
+    ok = (c['demo_clean_rc'] == 0 and c['demo_mut_rc'] not in (0, 124) and '11273 passed' in c['suite']
+          and ('failed' not in c['suite'] or '2 failed' in c['suite']) and ('error' not in c['suite'] or '18 errors' in c['suite']))
     if not ok:
         print('NOT CONFIRMED', prop, x, c)
         continue
